@@ -74,6 +74,15 @@ fn probes() -> Probes {
 }
 
 const NAMES: [&str; 3] = ["va", "vb", "vc"];
+const OPS_PER_FN: usize = 16;
+const LOCALS_PER_FN: usize = 120;
+const MAX_NODES: usize = 75;
+
+fn nodes(v: &Val) -> usize {
+    let mut n = 0;
+    scan(v, &mut |_| n += 1);
+    n
+}
 
 fn has_empty_list(v: &Val) -> bool {
     match v {
@@ -163,8 +172,13 @@ impl Case {
         ops
     }
 
+    /// literal operands only while they stay small (every constructor is a Lua local in the emitted code)
+    fn inline_eff(&self) -> bool {
+        self.inline && self.vals.iter().all(|v| nodes(v) <= 16)
+    }
+
     fn operand(&self, i: usize) -> String {
-        if self.inline {
+        if self.inline_eff() {
             format!("({})", val_text(&self.vals[i], &vtype(&self.vals[i], &self.ty), false))
         } else {
             NAMES[i].to_string()
@@ -209,14 +223,37 @@ impl Case {
         if self.global {
             lines.extend(defs.iter().cloned());
         }
-        lines.push("start :: fn do".into());
-        if !self.global {
-            lines.extend(defs.iter().map(|d| format!("    {}", d)));
-        }
+        // every read and call is a Lua `local` in the emitted code (200 per function is Lua's limit, the open C06
+        // finding): the operator applications are spread over functions of at most OPS_PER_FN prints
         let mut at = Vec::new();
+        let inline = self.inline_eff();
+        let sizes: Vec<usize> = self.vals.iter().map(nodes).collect();
+        let defs_cost: usize = if self.global || inline { 0 } else { sizes.iter().sum::<usize>() + sizes.len() };
+        let mut parts: Vec<Vec<Op>> = Vec::new();
+        let mut cost = usize::MAX;
         for op in ops {
-            lines.push(format!("    print({})", self.op_text(op)));
-            at.push(lines.len());
+            let c = 4 + if inline { sizes[op.i] + if matches!(op.k, OpK::Neg | OpK::DivNum) { 0 } else { sizes[op.j] } } else { 0 };
+            if cost.saturating_add(c) > LOCALS_PER_FN || parts.last().map(|p| p.len() >= OPS_PER_FN).unwrap_or(true) {
+                parts.push(Vec::new());
+                cost = defs_cost;
+            }
+            cost += c;
+            parts.last_mut().unwrap().push(*op);
+        }
+        for (n, part) in parts.iter().enumerate() {
+            lines.push(format!("part{} :: fn do", n));
+            if !self.global && !inline {
+                lines.extend(defs.iter().map(|d| format!("    {}", d)));
+            }
+            for op in part.iter() {
+                lines.push(format!("    print({})", self.op_text(op)));
+                at.push(lines.len());
+            }
+            lines.push("end".into());
+        }
+        lines.push("start :: fn do".into());
+        for n in 0..parts.len() {
+            lines.push(format!("    part{}()", n));
         }
         lines.push("end".into());
         (lines.join("\n") + "\n", at)
@@ -466,6 +503,9 @@ impl Check for C19 {
         if ops.is_empty() {
             return Verdict::Discard("no-operator-applies".into());
         }
+        if case.vals.iter().map(nodes).sum::<usize>() > MAX_NODES {
+            return Verdict::Discard("values-too-large".into());
+        }
 
         // ---- expected lines
         let dm = to_m(&case.divisor);
@@ -706,7 +746,7 @@ impl Check for C19 {
             return Ok(());
         }
         let ev = s.evaluations as f64;
-        let rendered = ev - s.discard("no-operator-applies") as f64 - s.discard("malformed-case") as f64;
+        let rendered = ev - s.discard("no-operator-applies") as f64 - s.discard("malformed-case") as f64 - s.discard("values-too-large") as f64;
         let acc = s.label("accepted") as f64 / rendered.max(1.0);
         if acc < 0.9 {
             return Err(format!("only {:.1}% of rendered programs are accepted by the compiler", acc * 100.0));
